@@ -127,38 +127,58 @@ class C11(F.Spec):
             return m or rng.choice(pool)
         ops.append("attrig 1 %d" % mask())
         lvl = 1
+        lvl_box, glitches = [1], [0]
 
-        def wait(us):
+        def wait0(us):
             while us > 0:                # cut so that the keep-alive is answered in long pauses
                 k = min(us, 900000)
                 ops.append("advus %d" % k)
                 us -= k
                 if k == 900000:
                     ops.append("pingreply")
+
+        def wait(us):
+            # now and then a contact glitch (27..85 ms, not a recognisable change) in the middle of the wait: while a click window
+            # is open, during a hold, in a pause.  It must change nothing: the pending gesture resolves as without it.
+            if us >= 400000 and rng.random() < .3:
+                g = rng.randint(27000, 85000)
+                a = rng.randint(150000, us - g - 160000)
+                wait0(a)
+                ops.append("input 10 %d" % (1 - lvl_box[0]))
+                ops.append("advus %d" % g)
+                ops.append("input 10 %d" % lvl_box[0])
+                wait0(us - a - g)
+                glitches[0] += 1
+            else:
+                wait0(us)
         for _ in range(rng.randint(1, 5)):
             g = rng.choice(["clicks", "clicks", "clicks", "hold", "retrig"])
             if g == "clicks":
                 for _ in range(rng.randint(1, 7)):
                     lvl = 1 - lvl
+                    lvl_box[0] = lvl
                     ops.append("input 10 %d" % lvl)
                     wait(rng.randint(141000, min(multi, hold) * 1000 - 25000))
                     if typ == 2:
                         lvl = 1 - lvl
+                        lvl_box[0] = lvl
                         ops.append("input 10 %d" % lvl)
                         wait(rng.randint(141000, multi * 1000 - 25000))
             elif g == "hold":
                 lvl = 1 - lvl
+                lvl_box[0] = lvl
                 ops.append("input 10 %d" % lvl)
                 wait(rng.randint(hold * 1000 - 150000, hold * 1000 + 600000))
                 if typ == 2:
                     lvl = 1 - lvl
+                    lvl_box[0] = lvl
                     ops.append("input 10 %d" % lvl)
             else:
                 ops.append("attrig 1 %d" % mask())
             wait(rng.choice([rng.randint(141000, multi * 1000 - 25000), multi * 1000 + rng.randint(150000, 400000), 1200000]))
         wait(1500000)
         return F.Case("at%d-%s" % (i, "mono" if typ == 2 else "bi"), ops,
-                      {"tags": ["kind:at", "type:%d" % typ, "relay:%d" % has_relay], "kind": "at", "typ": typ, "has_relay": has_relay,
+                      {"tags": ["kind:at", "type:%d" % typ, "relay:%d" % has_relay, "glitches:%d" % min(glitches[0], 3)], "kind": "at", "typ": typ, "has_relay": has_relay,
                        "cap": cap, "hold": hold, "multi": multi, "noshrink": True})
 
     def derive_at(self, case, raw):
